@@ -488,6 +488,9 @@ class CSSParser:
         if not op:
             # Attribute name
             pattern = None
+        elif not value and op[0] in '^$*':
+            # `^=`, `$=` and `*=` match nothing when the value is empty
+            pattern = re.compile(r'[^\s\S]', flags)
         elif op.startswith('^'):
             # Value start with
             pattern = re.compile(r'^%s.*' % re.escape(value), flags)
